@@ -330,7 +330,7 @@ def run(tier='quick', repo=None):
     I = Interp(u, prog)
     nstates = 0
     for started, status0 in itertools.product((0, 1), (0, 1)):
-        for nb in range(0, 4):
+        for nb in range(0, 4 if tier == 'quick' else 6):
             blockers = list(range(1, nb + 1))
             for op in ENTRY:
                 variants = [None]
